@@ -3,12 +3,13 @@
 //! against one or two real `Registry` stacks, each under two recording layers + ErrorSubscriber.
 use serde_json::{json, Value};
 use std::collections::HashMap;
-use std::sync::{Arc, Mutex};
+use std::sync::{Arc, Condvar, Mutex};
 use tracing::{Level, Span};
 use tracing_core::{dispatch, span, Dispatch, Event};
 use tracing_error::{ErrorSubscriber, SpanTrace};
 use tracing_subscriber::registry::{LookupSpan, Registry};
 use tracing_subscriber::subscribe::{CollectExt, Context, Subscribe};
+use tracing_subscriber::filter::LevelFilter;
 use vh_common::rec::{drain, new_log, Log};
 use vh_common::runner;
 use vh_common::workers::Workers;
@@ -28,6 +29,54 @@ impl tracing_core::field::Visit for KVisit {
 struct RecLayer<const L: u8> {
     reg: u64,
     log: Log,
+}
+
+/// A gate inside layer 2's `on_close`: a `drop` step marked `hold` parks there (the span's close is under way: layer 1
+/// has been told, the slot is not yet cleared) while other threads go on, until the matching `release` step.
+struct Gate {
+    st: Mutex<(u64, u8)>, // (armed thread, 0 idle / 1 parked / 2 released)
+    cv: Condvar,
+}
+static GATE: Gate = Gate { st: Mutex::new((0, 0)), cv: Condvar::new() };
+impl Gate {
+    fn arm(&self, t: u64) {
+        *self.st.lock().unwrap() = (t, 0);
+    }
+    fn disarm(&self) {
+        *self.st.lock().unwrap() = (0, 0);
+    }
+    fn park_if_armed(&self) {
+        let mut g = self.st.lock().unwrap();
+        if g.0 != 0 && g.0 == vh_common::rec::vt() && g.1 == 0 {
+            g.1 = 1;
+            self.cv.notify_all();
+            while g.1 != 2 {
+                g = self.cv.wait(g).unwrap();
+            }
+            *g = (0, 0);
+        }
+    }
+    fn parked(&self) -> bool {
+        self.st.lock().unwrap().1 == 1
+    }
+    fn release(&self) {
+        let mut g = self.st.lock().unwrap();
+        if g.1 == 1 {
+            g.1 = 2;
+            self.cv.notify_all();
+        }
+    }
+}
+
+/// leaf -> root by repeated `parent()` (must agree with `scope()`)
+fn walk_up<'a, const L: u8, C: LookupSpan<'a>>(s: tracing_subscriber::registry::SpanRef<'a, C>) -> Vec<i64> {
+    let mut v = vec![tok_of::<L, C>(&s)];
+    let mut cur = s.parent();
+    while let Some(p) = cur {
+        v.push(tok_of::<L, C>(&p));
+        cur = p.parent();
+    }
+    v
 }
 
 fn tok_of<'a, const L: u8, C: LookupSpan<'a>>(s: &tracing_subscriber::registry::SpanRef<'a, C>) -> i64 {
@@ -50,29 +99,55 @@ where
             }
             None => (false, -1),
         };
-        self.log.lock().unwrap().push(json!({"reg": self.reg, "layer": L, "call": "new_span", "tok": k, "id": id.into_u64(), "clean": clean, "par": par}));
+        let (scope, pw): (Vec<i64>, Vec<i64>) = match ctx.span(id) {
+            Some(s) => (s.scope().map(|a| tok_of::<L, C>(&a)).collect(), walk_up::<L, C>(s)),
+            None => (vec![-1], vec![-2]),
+        };
+        self.log.lock().unwrap().push(json!({"vt": vh_common::rec::vt(), "reg": self.reg, "layer": L, "call": "new_span", "tok": k, "id": id.into_u64(), "clean": clean, "par": par, "scope": scope, "pw": pw}));
+    }
+    fn on_enter(&self, _: &span::Id, ctx: Context<'_, C>) {
+        let c = ctx.lookup_current().map(|s| tok_of::<L, C>(&s)).unwrap_or(0);
+        self.log.lock().unwrap().push(json!({"vt": vh_common::rec::vt(), "reg": self.reg, "layer": L, "call": "enter", "current": c}));
+    }
+    fn on_exit(&self, _: &span::Id, ctx: Context<'_, C>) {
+        let c = ctx.lookup_current().map(|s| tok_of::<L, C>(&s)).unwrap_or(0);
+        self.log.lock().unwrap().push(json!({"vt": vh_common::rec::vt(), "reg": self.reg, "layer": L, "call": "exit", "current": c}));
     }
     fn on_close(&self, id: span::Id, ctx: Context<'_, C>) {
+        if L == 2 {
+            GATE.park_if_armed();
+        }
+        let vt = vh_common::rec::vt();
         let rec = match ctx.span(&id) {
             Some(s) => {
                 let scope: Vec<i64> = s.scope().map(|a| tok_of::<L, C>(&a)).collect();
-                json!({"reg": self.reg, "layer": L, "call": "close", "tok": tok_of::<L, C>(&s), "readable": true, "scope": scope})
+                let tok = tok_of::<L, C>(&s);
+                let pw = walk_up::<L, C>(s);
+                json!({"vt": vt, "reg": self.reg, "layer": L, "call": "close", "tok": tok, "readable": true, "scope": scope, "pw": pw})
             }
-            None => json!({"reg": self.reg, "layer": L, "call": "close", "tok": -1, "id": id.into_u64(), "readable": false, "scope": []}),
+            None => json!({"vt": vt, "reg": self.reg, "layer": L, "call": "close", "tok": -1, "id": id.into_u64(), "readable": false, "scope": [], "pw": []}),
         };
         self.log.lock().unwrap().push(rec);
     }
     fn on_event(&self, e: &Event<'_>, ctx: Context<'_, C>) {
         let chain: Vec<i64> = ctx.event_scope(e).map(|sc| sc.map(|a| tok_of::<L, C>(&a)).collect()).unwrap_or_default();
+        let pw: Vec<i64> = ctx.event_span(e).map(|s| walk_up::<L, C>(s)).unwrap_or_default();
         let parent = ctx.event_span(e).map(|s| tok_of::<L, C>(&s)).unwrap_or(0);
         let current = ctx.lookup_current().map(|s| tok_of::<L, C>(&s)).unwrap_or(0);
-        self.log.lock().unwrap().push(json!({"reg": self.reg, "layer": L, "call": "event", "parent": parent, "chain": chain, "current": current}));
+        self.log.lock().unwrap().push(json!({"vt": vh_common::rec::vt(), "reg": self.reg, "layer": L, "call": "event", "parent": parent, "chain": chain, "pw": pw, "current": current}));
     }
 }
 
 enum Cap {
     S(Span),
     T(SpanTrace),
+}
+
+/// a reference the program holds: a `Span` value, or a raw reference taken with `Dispatch::clone_span` that is given
+/// back with `try_close` / the deprecated `drop_span`
+enum H {
+    S(Span),
+    Raw(span::Id, Dispatch, bool),
 }
 
 struct Ctx {
@@ -82,16 +157,30 @@ struct Ctx {
 
 #[derive(Default)]
 struct Shared {
-    spans: Mutex<HashMap<u64, Vec<Span>>>,
+    spans: Mutex<HashMap<u64, Vec<H>>>,
     caps: Mutex<HashMap<u64, Cap>>,
     meta: Mutex<HashMap<u64, (u64, u64)>>, // serial -> (registry, id)
 }
+impl Shared {
+    /// id and collector of the span, through whichever reference the program still holds
+    fn target(&self, s: u64) -> Option<(span::Id, Dispatch)> {
+        match self.spans.lock().unwrap().get(&s).and_then(|v| v.first()) {
+            Some(H::S(sp)) => sp.with_collector(|(id, d)| (id.clone(), d.clone())),
+            Some(H::Raw(id, d, _)) => Some((id.clone(), d.clone())),
+            None => None,
+        }
+    }
+}
 
-fn mk(pk: &str, k: u64, parent: Option<&Span>) -> Span {
-    match pk {
-        "ctx" => tracing::span!(Level::INFO, "s", k = k),
-        "root" => tracing::span!(parent: None, Level::INFO, "s", k = k),
-        _ => tracing::span!(parent: parent.unwrap(), Level::INFO, "s", k = k),
+/// `hide`: a DEBUG span, which the per-layer-filtered layer 3 (when present) does not see
+fn mk(pk: &str, hide: bool, k: u64, parent: Option<span::Id>) -> Span {
+    match (pk, hide) {
+        ("ctx", false) => tracing::span!(Level::INFO, "s", k = k),
+        ("root", false) => tracing::span!(parent: None, Level::INFO, "s", k = k),
+        (_, false) => tracing::span!(parent: parent.unwrap(), Level::INFO, "s", k = k),
+        ("ctx", true) => tracing::span!(Level::DEBUG, "s", k = k),
+        ("root", true) => tracing::span!(parent: None, Level::DEBUG, "s", k = k),
+        (_, true) => tracing::span!(parent: parent.unwrap(), Level::DEBUG, "s", k = k),
     }
 }
 
@@ -179,6 +268,25 @@ fn racedrop(beh: &Value) {
     runner::child_emit(o);
 }
 
+fn build(r: u64, log: &Log, wrap: &str, plf: bool) -> Dispatch {
+    macro_rules! wrapd {
+        ($c:expr) => {
+            match wrap {
+                "box" => Dispatch::new(Box::new($c) as Box<dyn tracing_core::Collect + Send + Sync>),
+                "arc" => Dispatch::new(Arc::new($c)),
+                _ => Dispatch::new($c),
+            }
+        };
+    }
+    // layer 2 is the outermost layer: what only the outermost Layered frame does (or forgets) is visible to it
+    let base = Registry::default().with(RecLayer::<1> { reg: r, log: log.clone() }).with(ErrorSubscriber::default());
+    if plf {
+        wrapd!(base.with(RecLayer::<3> { reg: r, log: log.clone() }.with_filter(LevelFilter::INFO)).with(RecLayer::<2> { reg: r, log: log.clone() }))
+    } else {
+        wrapd!(base.with(RecLayer::<2> { reg: r, log: log.clone() }))
+    }
+}
+
 fn child() {
     vh_common::quiet_panics();
     let beh = runner::child_input();
@@ -187,28 +295,38 @@ fn child() {
         return;
     }
     let log = new_log();
+    let wrap = beh["wrap"].as_str().unwrap_or("none").to_string();
+    let plf = beh["plf"].as_bool().unwrap_or(false);
     let mut regs: HashMap<u64, Dispatch> = HashMap::new();
     for r in 1..=2u64 {
-        let c = Registry::default()
-            .with(RecLayer::<1> { reg: r, log: log.clone() })
-            .with(RecLayer::<2> { reg: r, log: log.clone() })
-            .with(ErrorSubscriber::default());
-        regs.insert(r, Dispatch::new(c));
+        regs.insert(r, build(r, &log, &wrap, plf));
     }
     let sh = Arc::new(Shared::default());
     let mut ws: Workers<Ctx> = Workers::new(|| Ctx { default: None, entered: vec![] });
     let mut serial = 0u64;
     let mut curd: HashMap<u64, u64> = HashMap::new();
     let mut idmap: HashMap<u64, u64> = HashMap::new();
+    // a `drop` parked inside layer 2's on_close: (thread, its step record, result channel, layer calls of that thread so far)
+    let mut held: Option<(u64, Value, std::sync::mpsc::Receiver<Result<Value, String>>, Vec<Value>)> = None;
     for step in beh["steps"].as_array().unwrap() {
         let mut o = step.clone();
         o["ev"] = json!("op");
-        let t = step["t"].as_u64().unwrap();
+        o["plf"] = json!(plf);
+        let mut t = step["t"].as_u64().unwrap();
         let g = |k: &str| step[k].as_u64().unwrap_or(0);
-        let op = step["op"].as_str().unwrap().to_string();
+        let mut op = step["op"].as_str().unwrap().to_string();
         let (s, k, p) = (g("s"), g("k"), g("p"));
-        drain(&log);
+        let hide = step["hide"].as_bool().unwrap_or(false);
+        // layer calls made since the last step: those of a parked thread belong to its pending operation
+        let mut early = drain(&log);
+        if let Some(h) = held.as_mut() {
+            let (mine, other): (Vec<Value>, Vec<Value>) = early.into_iter().partition(|c| c["vt"] == h.0);
+            h.3.extend(mine);
+            early = other;
+        }
+        drop(early);
         let sh2 = sh.clone();
+        let mut pre_calls: Vec<Value> = vec![];
         let res: Result<Value, String> = match op.as_str() {
             "switch" => {
                 let d = regs.get(&g("r")).cloned();
@@ -224,43 +342,95 @@ fn child() {
                 let (pk, ser, reg) = (step["pk"].as_str().unwrap().to_string(), serial, *curd.get(&t).unwrap_or(&0));
                 ws.run(t, move |_| {
                     let sp = if pk == "of" {
-                        let m = sh2.spans.lock().unwrap();
-                        let par = m.get(&p).and_then(|v| v.first()).cloned();
-                        drop(m);
-                        let r = mk(&pk, ser, par.as_ref());
-                        drop(par);
-                        r
+                        let par = sh2.target(p).map(|x| x.0);
+                        mk(&pk, hide, ser, par)
                     } else {
-                        mk(&pk, ser, None)
+                        mk(&pk, hide, ser, None)
                     };
                     let id = sp.id().map(|i| i.into_u64()).unwrap_or(0);
                     sh2.meta.lock().unwrap().insert(ser, (reg, id));
-                    sh2.spans.lock().unwrap().entry(ser).or_default().push(sp);
+                    sh2.spans.lock().unwrap().entry(ser).or_default().push(H::S(sp));
                     json!(id)
                 })
             }
-            "clone" => ws.run(t, move |_| {
-                let mut m = sh2.spans.lock().unwrap();
-                let c = m.get(&s).and_then(|v| v.first()).cloned().expect("clone: no handle");
-                m.get_mut(&s).unwrap().push(c);
-                json!(0)
-            }),
-            "drop" => ws.run(t, move |_| {
-                let h = sh2.spans.lock().unwrap().get_mut(&s).and_then(|v| v.pop()).expect("drop: no handle");
-                drop(h);
-                json!(0)
-            }),
-            "enter" => ws.run(t, move |c| {
-                let h = sh2.spans.lock().unwrap().get(&s).and_then(|v| v.first()).cloned().expect("enter: no handle");
-                let saved = h.with_collector(|(id, d)| {
-                    d.enter(id);
-                    (id.clone(), d.clone())
-                });
-                // the temporary clone must not outlive the operation: dropping it is a clone/try_close pair
-                drop(h);
-                if let Some((id, d)) = saved {
-                    c.entered.push((s, id, d));
+            "clone" => {
+                let raw = step["raw"].as_str().map(|x| x.to_string());
+                ws.run(t, move |_| {
+                    let mut m = sh2.spans.lock().unwrap();
+                    let v = m.get_mut(&s).expect("clone: no handle");
+                    let h = match (v.first().expect("clone: no handle"), raw.as_deref()) {
+                        (H::S(c), None) => H::S(c.clone()),
+                        // a raw reference: clone_span through the span's collector, given back later without a `Span`
+                        (H::S(c), Some(how)) => c.with_collector(|(id, d)| H::Raw(d.clone_span(id), d.clone(), how == "drop_span")).expect("clone: disabled span"),
+                        (H::Raw(id, d, _), how) => H::Raw(d.clone_span(id), d.clone(), how == Some("drop_span")),
+                    };
+                    v.push(h);
+                    json!(0)
+                })
+            }
+            "drop" => {
+                let unwind = step["unwind"].as_bool().unwrap_or(false);
+                let front = step["front"].as_bool().unwrap_or(false);
+                let job = move |_: &mut Ctx| {
+                    // which of the references goes does not matter to the history; `front` gives up the oldest one, so
+                    // that a raw reference can be the last
+                    let h = sh2.spans.lock().unwrap().get_mut(&s).and_then(|v| if front && !v.is_empty() { Some(v.remove(0)) } else { v.pop() }).expect("drop: no handle");
+                    match h {
+                        // the handle is dropped by a panic unwinding through its owner (the panic is caught)
+                        H::S(sp) if unwind => {
+                            let r = std::panic::catch_unwind(std::panic::AssertUnwindSafe(move || {
+                                let _owner = sp;
+                                panic!("unwinding through the owner of a span handle");
+                            }));
+                            assert!(r.is_err());
+                        }
+                        H::S(sp) => drop(sp),
+                        H::Raw(id, d, true) => {
+                            #[allow(deprecated)]
+                            d.drop_span(id)
+                        }
+                        H::Raw(id, d, false) => {
+                            d.try_close(id);
+                        }
+                    }
+                    json!(0)
+                };
+                if step["hold"].as_bool().unwrap_or(false) && held.is_none() {
+                    GATE.arm(t);
+                    let rx = ws.spawn(t, job);
+                    loop {
+                        if let Ok(r) = rx.try_recv() {
+                            GATE.disarm();
+                            break r; // nothing closed: the operation is complete
+                        }
+                        if GATE.parked() {
+                            held = Some((t, o.clone(), rx, vec![]));
+                            break Ok(json!("parked"));
+                        }
+                        std::thread::yield_now();
+                    }
+                } else {
+                    ws.run(t, job)
                 }
+            }
+            "release" => match held.take() {
+                // the parked drop runs to its end; it is reported here, where it takes effect
+                Some((ht, ho, rx, calls)) => {
+                    GATE.release();
+                    let r = rx.recv().unwrap_or_else(|_| Err("worker died".into()));
+                    t = ht;
+                    o = ho;
+                    o["held"] = json!(true);
+                    op = "drop".to_string();
+                    pre_calls = calls;
+                    r
+                }
+                None => continue,
+            },
+            "enter" => ws.run(t, move |c| {
+                let (id, d) = sh2.target(s).expect("enter: no handle");
+                d.enter(&id);
+                c.entered.push((s, id, d));
                 json!(0)
             }),
             "exit" => ws.run(t, move |c| {
@@ -325,8 +495,8 @@ fn child() {
                         "ctx" => tracing::info!("e"),
                         "root" => tracing::info!(parent: None, "e"),
                         _ => {
-                            let par = sh2.spans.lock().unwrap().get(&p).and_then(|v| v.first()).cloned().expect("event: no parent handle");
-                            tracing::info!(parent: &par, "e");
+                            let par = sh2.target(p).expect("event: no parent handle").0;
+                            tracing::info!(parent: par, "e");
                         }
                     }
                     json!(0)
@@ -334,7 +504,19 @@ fn child() {
             }
             o => panic!("op {o}"),
         };
-        let calls = drain(&log);
+        if held.is_some() && res.as_ref().ok() == Some(&json!("parked")) {
+            continue; // reported at its `release`
+        }
+        let mut calls = pre_calls;
+        let fresh = drain(&log);
+        match held.as_mut() {
+            Some(h) => {
+                let (mine, other): (Vec<Value>, Vec<Value>) = fresh.into_iter().partition(|c| c["vt"] == h.0);
+                h.3.extend(mine);
+                calls.extend(other);
+            }
+            None => calls.extend(fresh),
+        }
         // projection
         let per_layer = |l: u64, what: &str| -> Vec<Value> { calls.iter().filter(|c| c["layer"] == l && c["call"] == what).cloned().collect() };
         let (c1, c2) = (per_layer(1, "close"), per_layer(2, "close"));
@@ -342,10 +524,14 @@ fn child() {
         let agree = toks(&c1) == toks(&c2);
         o["closes"] = json!(if agree { toks(&c1) } else { vec![-1] });
         o["cscopes"] = json!(c2.iter().map(|c| c["scope"].clone()).collect::<Vec<_>>());
-        o["rd"] = json!(agree && c1.iter().chain(c2.iter()).all(|c| c["readable"] == true) && c1.iter().zip(c2.iter()).all(|(a, b)| a["scope"] == b["scope"]));
+        o["rd"] = json!(
+            agree
+                && c1.iter().chain(c2.iter()).all(|c| c["readable"] == true && c["scope"] == c["pw"])
+                && c1.iter().zip(c2.iter()).all(|(a, b)| a["scope"] == b["scope"])
+        );
         let (n1, n2) = (per_layer(1, "new_span"), per_layer(2, "new_span"));
         if op == "new" {
-            let ok = n1.len() == 1 && n2.len() == 1 && n1[0]["par"] == n2[0]["par"] && n1[0]["tok"] == n2[0]["tok"];
+            let ok = n1.len() == 1 && n2.len() == 1 && n1[0]["par"] == n2[0]["par"] && n1[0]["tok"] == n2[0]["tok"] && n1.iter().chain(n2.iter()).all(|c| c["scope"] == c["pw"]);
             o["par"] = if ok { n1[0]["par"].clone() } else { json!(-1) };
             o["clean"] = json!(ok && n1[0]["clean"] == true && n2[0]["clean"] == true);
             // registry ids are 64-bit (they pack a shard number): log a dense index of the raw id, which
@@ -355,12 +541,35 @@ fn child() {
             let dense = if raw == 0 { 0 } else { *idmap.entry(raw).or_insert(next) };
             o["id"] = json!(dense);
             o["serial"] = json!(serial);
+            o["hide"] = json!(hide);
         }
         let (e1, e2) = (per_layer(1, "event"), per_layer(2, "event"));
         if op == "event" {
-            let ok = e1.len() == 1 && e2.len() == 1 && e1[0]["chain"] == e2[0]["chain"] && e1[0]["parent"] == e2[0]["parent"];
+            let ok = e1.len() == 1 && e2.len() == 1 && e1[0]["chain"] == e2[0]["chain"] && e1[0]["parent"] == e2[0]["parent"] && e1.iter().chain(e2.iter()).all(|c| c["chain"] == c["pw"]);
             o["chain"] = if ok { e1[0]["chain"].clone() } else { json!([-1]) };
             o["eparent"] = if ok { e1[0]["parent"].clone() } else { json!(-1) };
+        }
+        // the current span as the layers see it inside on_enter / on_exit (-1: they disagree, or were not called once each)
+        if op == "enter" || op == "exit" {
+            let (x1, x2) = (per_layer(1, &op), per_layer(2, &op));
+            o["cbcur"] = if x1.len() == 1 && x2.len() == 1 && x1[0]["current"] == x2[0]["current"] { x1[0]["current"].clone() } else { json!(-1) };
+        }
+        // what the per-layer-filtered layer 3 saw (it is not shown DEBUG spans): its own parent / scope / close views
+        if plf {
+            let n3 = per_layer(3, "new_span");
+            let c3 = per_layer(3, "close");
+            let e3 = per_layer(3, "event");
+            let consistent = n3.iter().chain(c3.iter()).all(|c| c["scope"] == c["pw"]) && e3.iter().all(|c| c["chain"] == c["pw"]);
+            o["v3"] = json!({
+                "ok": consistent && n3.len() <= 1 && e3.len() <= 1,
+                "news": n3.len(),
+                "par": n3.first().map(|c| c["par"].clone()).unwrap_or(json!(-2)),
+                "scope": n3.first().map(|c| c["scope"].clone()).unwrap_or(json!([])),
+                "closes": toks(&c3),
+                "cscopes": c3.iter().map(|c| c["scope"].clone()).collect::<Vec<_>>(),
+                "events": e3.len(),
+                "chain": e3.first().map(|c| c["chain"].clone()).unwrap_or(json!([])),
+            });
         }
         match &res {
             Ok(v) => {
@@ -384,11 +593,16 @@ fn child() {
             .collect();
         live.sort();
         o["live"] = json!(live);
-        let cur = ws
-            .run(t, |_| dispatch::get_default(|d| d.current_span().id().map(|id| lookup_tok(d, id)).unwrap_or(0)))
-            .unwrap_or(-1);
+        let cur = if held.as_ref().map(|h| h.0) == Some(t) {
+            -1 // cannot happen: generators never schedule a parked thread
+        } else {
+            ws.run(t, |_| dispatch::get_default(|d| d.current_span().id().map(|id| lookup_tok(d, id)).unwrap_or(0))).unwrap_or(-1)
+        };
         o["cur"] = json!(cur);
         runner::child_emit(o);
+    }
+    if held.is_some() {
+        GATE.release();
     }
     std::process::exit(0); // no quiescence obligations here; skip destructors of leaked state
 }
